@@ -17,3 +17,48 @@ Lemma gen_ntp_Time64_After_eq : forall t u,
   Gen.ntp_Time64_After t u = NtpTime.t64_after (to_t64 t) (to_t64 u).
 Proof. intros [ts tf] [us uf]. unfold Gen.ntp_Time64_After, NtpTime.t64_after, to_t64. reflexivity. Qed.
 Print Assumptions gen_ntp_Time64_After_eq.
+
+(* ---- against what Model/Tss.v really computes with ----
+   The model keeps a Time64 as the single number t64_num = seconds * 2^32 + fraction and
+   compares with <? and =? on Z (Tss.v: scan, scan_tx_from, admission_decision, hq_min_val).
+   For fields of the uint32 range that is the translated Before / After / ==. *)
+Definition frac_ok (g : Gen.ntp_Time64) : Prop := 0 <= Gen.ntp_Time64_Fraction g < 4294967296.
+
+Lemma t64_before_num a b :
+  0 <= t64_frac a < 4294967296 -> 0 <= t64_frac b < 4294967296 ->
+  NtpTime.t64_before a b = (t64_num a <? t64_num b).
+Proof.
+  intros Ha Hb. unfold NtpTime.t64_before, t64_num. apply eq_true_iff_eq.
+  rewrite orb_true_iff, andb_true_iff, !Z.ltb_lt, Z.eqb_eq. lia.
+Qed.
+
+Lemma t64_after_num a b :
+  0 <= t64_frac a < 4294967296 -> 0 <= t64_frac b < 4294967296 ->
+  NtpTime.t64_after a b = (t64_num b <? t64_num a).
+Proof.
+  intros Ha Hb. unfold NtpTime.t64_after, t64_num. apply eq_true_iff_eq.
+  rewrite orb_true_iff, andb_true_iff, !Z.ltb_lt, Z.eqb_eq. lia.
+Qed.
+
+(* Go's == on the struct is equality of the numbers *)
+Lemma t64_num_inj a b :
+  0 <= t64_frac a < 4294967296 -> 0 <= t64_frac b < 4294967296 ->
+  (t64_num a = t64_num b <-> t64_sec a = t64_sec b /\ t64_frac a = t64_frac b).
+Proof. intros Ha Hb. unfold t64_num. lia. Qed.
+
+Lemma gen_ntp_Time64_Before_num : forall t u, frac_ok t -> frac_ok u ->
+  Gen.ntp_Time64_Before t u = (t64_num (to_t64 t) <? t64_num (to_t64 u)).
+Proof. intros t u Ht Hu. rewrite gen_ntp_Time64_Before_eq. apply t64_before_num; assumption. Qed.
+Print Assumptions gen_ntp_Time64_Before_num.
+
+Lemma gen_ntp_Time64_After_num : forall t u, frac_ok t -> frac_ok u ->
+  Gen.ntp_Time64_After t u = (t64_num (to_t64 u) <? t64_num (to_t64 t)).
+Proof. intros t u Ht Hu. rewrite gen_ntp_Time64_After_eq. apply t64_after_num; assumption. Qed.
+Print Assumptions gen_ntp_Time64_After_num.
+
+(* the numbers the model works with are such numbers: to64 t = t64_num of Time64FromTime t, whose
+   fraction is a uint32 *)
+Lemma to64_is_num t : Tss.to64 t = t64_num (time64_of_time t) /\ 0 <= t64_frac (time64_of_time t) < 4294967296.
+Proof.
+  split; [reflexivity|]. unfold time64_of_time. cbn [t64_frac]. unfold u32. apply Z.mod_pos_bound. lia.
+Qed.
